@@ -719,7 +719,25 @@ func pollute(r *rand.Rand) {
 		am.Struct
 		A T1
 	}
-	switch r.Intn(5) {
+	switch r.Intn(6) {
+	case 5: // a Call (and a Convert) fails while a NAMED value is being produced: its converter returns an error
+		errN := errors.New("pollution: conversion of a named value failed")
+		name := pick(r, []string{"a", "b", "c", "alpha"})
+		tgtT := reflect.StructOf([]reflect.StructField{
+			{Name: "Struct", Type: structMarkerT, Anonymous: true},
+			{Name: "V", Type: types[1], Tag: reflect.StructTag(fmt.Sprintf(`argmapper:"%s"`, name))},
+		})
+		inT := reflect.StructOf([]reflect.StructField{
+			{Name: "Struct", Type: structMarkerT, Anonymous: true},
+			{Name: "V", Type: types[0], Tag: reflect.StructTag(fmt.Sprintf(`argmapper:"%s"`, name))},
+		})
+		tf := reflect.MakeFunc(reflect.FuncOf([]reflect.Type{tgtT}, nil, false), func([]reflect.Value) []reflect.Value { return nil })
+		cf := reflect.MakeFunc(reflect.FuncOf([]reflect.Type{inT}, []reflect.Type{tgtT, errT}, false), func([]reflect.Value) []reflect.Value {
+			return []reflect.Value{reflect.Zero(tgtT), reflect.ValueOf(&errN).Elem()}
+		})
+		f, _ := am.NewFunc(tf.Interface())
+		f.Call(am.Named(name, T0{ID: -5}), am.Converter(cf.Interface()))
+		am.Convert(tgtT, am.Named(name, T0{ID: -5}), am.Converter(cf.Interface()))
 	case 0: // rejected for a nil option that comes after value options
 		f, _ := am.NewFunc(func(in inA) {})
 		f.Call(am.Named("a", T0{ID: -5}), am.Named("b", T1{ID: -5}), am.Typed(T2{ID: -5}, T3{ID: -5}), am.TypedSubtype(T4{ID: -5}, "x"), nil)
@@ -1221,5 +1239,117 @@ func runC19NilVertex(c *CaseCtx, r *rand.Rand) (res CaseResult) {
 	}
 	res.Key = strings.Join(trace, ";")
 	res.Sample = map[string]interface{}{"ops": strings.Join(trace, " ; ")}
+	return res
+}
+
+// runC15SamePrinting: a value list whose types are different Go types that
+// print alike (two function-local "unit" types, plus same-named values of
+// them): the values are distinct, so the set is built, reports them in order
+// and finds each by its type.
+func runC15SamePrinting(c *CaseCtx, r *rand.Rand) (res CaseResult) {
+	res.NonTrivial = true
+	res.Key = "value-set-over-types-that-print-alike"
+	res.obs("family.types-that-print-alike", 1)
+	det := map[string]interface{}{"case": res.Key}
+	defer func() {
+		if p := recover(); p != nil {
+			res.violate("C06", "panic/valueset-"+crashKey(fmt.Sprint(p)), fmt.Sprintf("panicked: %v", p), det)
+		}
+	}()
+	ta := reflect.TypeOf(sameNamedParamA()).In(0)
+	tb := reflect.TypeOf(sameNamedParamB()).In(0)
+	lists := [][]am.Value{
+		{{Type: ta}, {Type: tb}},
+		{{Type: tb}, {Name: "k", Type: types[0]}, {Type: ta}},
+		{{Type: ta, Subtype: "s"}, {Type: tb, Subtype: "s"}},
+	}
+	for _, vals := range lists {
+		vs, err := am.NewValueSet(vals)
+		res.Evals++
+		if err != nil || vs == nil {
+			res.violate("C15", "valueset-rejected", fmt.Sprintf("NewValueSet rejected a list of distinct values (types %v and %v are different types): %v", ta, tb, err), det)
+			continue
+		}
+		got := vs.Values()
+		if len(got) != len(vals) {
+			res.violate("C15", "values-differ", fmt.Sprintf("Values() has %d entries, the list %d", len(got), len(vals)), det)
+			continue
+		}
+		for i, v := range vals {
+			if got[i].Type != v.Type || got[i].Name != v.Name || got[i].Subtype != v.Subtype {
+				res.violate("C15", "values-differ", fmt.Sprintf("Values()[%d] = (%q, %v kind %v, %q), want (%q, %v kind %v, %q)", i, got[i].Name, got[i].Type, got[i].Type.Kind(), got[i].Subtype, v.Name, v.Type, v.Type.Kind(), v.Subtype), det)
+			}
+			if v.Name == "" {
+				if p := vs.TypedSubtype(v.Type, v.Subtype); p == nil || p.Type != v.Type {
+					res.violate("C15", "typedsubtype-lookup", fmt.Sprintf("TypedSubtype(%v kind %v, %q) does not find the value of that type", v.Type, v.Type.Kind(), v.Subtype), det)
+				}
+			}
+		}
+	}
+	res.Sample = det
+	return res
+}
+
+// runC12ConvertTypes: many goroutines call Convert at the same time, each to
+// one of several target types, all supplying typed values of every type with
+// their own ids. Each Convert returns the supplied value of ITS target type.
+func runC12ConvertTypes(c *CaseCtx, r *rand.Rand) (res CaseResult) {
+	res.NonTrivial = true
+	res.Key = "concurrent-converts-to-different-types"
+	res.obs("family.concurrent-converts", 1)
+	det := map[string]interface{}{"case": res.Key}
+	old := runtime.GOMAXPROCS(16)
+	defer runtime.GOMAXPROCS(old)
+	G, per := 8+r.Intn(9), tierReps(c.Tier, 200, 500)
+	withConv := r.Intn(2) == 0
+	var wg sync.WaitGroup
+	var mu sync.Mutex
+	bad, first := 0, ""
+	start := make(chan struct{})
+	for g := 0; g < G; g++ {
+		wg.Add(1)
+		go func(g int) {
+			defer wg.Done()
+			defer func() {
+				if p := recover(); p != nil {
+					mu.Lock()
+					bad++
+					if first == "" {
+						first = fmt.Sprintf("panic: %v", p)
+					}
+					mu.Unlock()
+				}
+			}()
+			<-start
+			for k := 0; k < per; k++ {
+				id := int64(g*100000 + k + 1)
+				t := (g + k) % 4
+				args := []am.Arg{am.Typed(T0{ID: id}, T1{ID: id}, T2{ID: id})}
+				if withConv {
+					args = append(args, am.Converter(func(x T2) T3 { return T3{ID: x.ID} }))
+				} else {
+					args = append(args, am.Typed(T3{ID: id}))
+				}
+				v, err := am.Convert(types[t], args...)
+				got, conc := idOfIface(v)
+				if err != nil || conc != t || got != id {
+					mu.Lock()
+					bad++
+					if first == "" {
+						first = fmt.Sprintf("Convert(%s) with the values #%d returned (%T %v, %v)", typeName(t), id, v, v, err)
+					}
+					mu.Unlock()
+				}
+			}
+		}(g)
+	}
+	close(start)
+	wg.Wait()
+	res.Evals += G * per
+	res.obs("concurrent_operations", int64(G*per))
+	if bad > 0 {
+		res.violate("C12", "concurrent-outcome-differs", fmt.Sprintf("%d of %d concurrent Converts returned an outcome no sequential execution of that call returns; first: %s", bad, G*per, first), det)
+	}
+	res.Sample = det
 	return res
 }
